@@ -138,6 +138,15 @@ theorem notify_is_source (fl : Flags) (s : St) (j d t c : Nat) (h : ((s.jobs j).
   simp only [St.runCb, h, Gen.notifyGuardSrc]
   src_auto
 
+/-- the callbacks `Token.aio_notify` queues are the ones the model queues at every release: one per registered dependent of
+    the token, in registration order, none skipped (the seeded change that skips ready / started jobs fails here). -/
+theorem notify_all_is_source (s : St) (t : Nat) :
+    (s.tokDeps t).map (fun (p : Nat × Nat) => Cb.notifyCheck p.1 p.2) = Gen.notifyListSrc s t := by
+  unfold Gen.notifyListSrc
+  first
+    | rfl
+    | (rw [List.filter_eq_self.mpr]; intro p _; src_auto)
+
 /-- `St.init` gives every token what `ProcessCounterToken.__init__` of the source gives it: `count` and `available = count`. -/
 theorem init_is_source (totals : List Nat) (t : Nat) :
     (Int.ofNat ((St.init totals).total t), (St.init totals).avail t) = Gen.tokInitSrc (Int.ofNat (totals.getD t 0)) := by
@@ -153,8 +162,11 @@ theorem register_is_source (s : St) (j : Nat) : St.register repaired s j = Gen.r
 /-- **`St.waiterRun` is one turn of the loop of `experiment.wait`**: `unfinishedJobs == 0` ⇒ leave the loop, then raise iff
     `failedJobs` is not empty; else sleep on the exit condition. -/
 theorem waiterRun_is_source (s : St) : St.waiterRun s = Gen.waiterRunSrc s := by
-  unfold St.waiterRun Gen.waiterRunSrc
-  by_cases h : s.unfinished = 0 <;> cases hf : s.failed.isEmpty <;> simp [h]
+  unfold Gen.waiterRunSrc
+  first
+    | rfl
+    | (unfold St.waiterRun
+       by_cases h : s.unfinished = 0 <;> cases hf : s.failed.isEmpty <;> simp [h])
 
 /-- the state a launched job gets when its process ends is the source's function of the exit code (`aio_start`:
     `DONE if code == 0 else ERROR`). -/
